@@ -184,7 +184,7 @@ pub fn exec(case: &Value) -> Value {
 
 pub fn gen(args: &Args, out: &mut dyn Write) {
     let thorough = args.tier == "thorough";
-    let (maxs, maxg) = if thorough { (12, 8) } else { (8, 5) };
+    let (maxs, maxg) = if thorough { (16, 10) } else { (8, 5) };
     let mut k = 0;
     let mut emit = |out: &mut dyn Write, mut v: Value| {
         v.as_object_mut().unwrap().insert("k".into(), json!(format!("m{}", k)));
@@ -206,6 +206,17 @@ pub fn gen(args: &Args, out: &mut dyn Write) {
             }
             if segs >= 3 {
                 emit(out, json!({"solid": "torus", "secs": secs, "segs": segs, "R": 2.0 * r + 1.0, "r": r}));
+            }
+            // the same solids at very small and very large scales (every length scales with r)
+            if (secs + 2 * segs) % 5 == 0 {
+                for r in [0.00048828125, 512.0] {
+                    if segs >= 2 {
+                        emit(out, json!({"solid": "sphere", "secs": secs, "segs": segs, "r": r}));
+                    }
+                    if segs >= 3 {
+                        emit(out, json!({"solid": "torus", "secs": secs, "segs": segs, "R": 3.0 * r, "r": r}));
+                    }
+                }
             }
             for capped in [0, 1] {
                 emit(out, json!({"solid": "cylinder", "secs": secs, "segs": segs, "capped": capped, "r": r}));
